@@ -1,5 +1,6 @@
 import PPProofs.Lemmas.DiagramLinks
 import PPProofs.Lemmas.DiagramRoot
+import PPProofs.Lemmas.DiagramRoot0
 import PPProofs.Lemmas.DiagramFilled
 import PPProofs.Lemmas.DiagramContent
 import PPProofs.Props.C20
@@ -198,6 +199,121 @@ example : rootFirstHyp gFwdRoot opts0 0 = false ∧ rootFirstHyp gRootOnCycle op
     (toRailroad gFwdRoot opts0 10 0).map names = some [] ∧
     ∃ ds, toRailroad gRootOnCycle opts0 20 0 = some ds ∧ (names ds).head? = some (some "E") :=
   ⟨by decide +kernel, by decide +kernel, unnamed_forward_root_witness, root_not_first_witness⟩
+
+/-- the hypothesis of `root_first_unnamed_partial`, executable: the root has no custom name, is not a
+    bypassed Forward/Located, is shown, `dispatch` creates a partial for it, and `Dl` is a set of
+    elements that contains the root's children, is closed under `recurse()` and does not contain the
+    root (i.e. the root lies on no cycle; take for `Dl` the elements reachable from the children) -/
+def offCycleRootHyp (g : Grammar) (o : Opts) (root : Nat) (Dl : List Nat) : Bool :=
+  match g[root]? with
+  | none => false
+  | some n =>
+    !truthy n.custom && !isPass n && (n.shown || o.showHidden) &&
+    (dispatch g o n (nameOf n none)).isSome && n.kids.all Dl.contains &&
+    Dl.all (fun u => (kidsOf g u).all Dl.contains) && !Dl.contains root
+
+/-- **root_first_unnamed_partial** - the case of `root_first` that `root_first_partial` leaves out and
+    that ordinary use produces (`expr.create_diagram(...)` on an unnamed expression): if the root has
+    no custom name, is not an unnamed Forward/Located with an expression (`unnamed_forward_root_witness`),
+    is drawn, and lies on no cycle (`root_not_first_witness`) - `offCycleRootHyp`, with the set of
+    descendants given as a list - then for all options and every fuel at which the conversion returns
+    the output is non-empty and its first diagram is the root's, the one named `""`.  No hypothesis on
+    the grammar below the root (named or unnamed cycles among descendants, duplicate names, "...").
+    Still missing from the full clause: custom-named roots that are not worth extracting or whose
+    name is shared, and roots on a cycle (where the clause is false for unnamed roots). -/
+theorem root_first_unnamed_partial (g : Grammar) (o : Opts) (fuel root : Nat) (Dl : List Nat)
+    (ds : List Named) (hyp : offCycleRootHyp g o root Dl = true)
+    (h : toRailroad g o fuel root = some ds) : (names ds).head? = some (some "") := by
+  unfold offCycleRootHyp at hyp
+  cases hg : g[root]? with
+  | none => rw [hg] at hyp; simp at hyp
+  | some n =>
+    rw [hg] at hyp
+    simp only [Bool.and_eq_true, Bool.not_eq_true', Bool.or_eq_true, List.all_eq_true,
+      List.contains_eq_mem, decide_eq_true_eq, decide_eq_false_iff_not] at hyp
+    obtain ⟨⟨⟨⟨⟨⟨hcust, hpass⟩, hvis⟩, hdisp⟩, hkids⟩, hclosed⟩, hnroot⟩ := hyp
+    obtain ⟨pn, hpn⟩ := Option.isSome_iff_exists.mp hdisp
+    have hv : (!n.shown && !o.showHidden) = false := by
+      rcases hvis with h1 | h1 <;> simp [h1]
+    have hD : ClosedUnder g (fun u => u ∈ Dl) := by
+      intro u n' hu hgu c hc
+      have := hclosed u hu c (by unfold kidsOf; rw [hgu]; exact hc)
+      exact this
+    have hcu : truthy (customOf g root) = false := by rw [customOf_eq hg]; exact hcust
+    unfold toRailroad at h
+    split at h
+    · exact absurd h (by simp)
+    · rename_i s hs
+      simp only [Option.some.injEq] at h
+      subst h
+      unfold convertRoot at hs
+      split at hs
+      · exact absurd hs (by simp)
+      · rename_i r s0 hc
+        obtain ⟨hl, hp0, _⟩ := conv_step g o fuel root none 0 none {} r s0 hc (LInv_init g)
+        have hR := conv_root_RInv0 g o fuel root n pn (fun u => u ∈ Dl) hD hnroot hg hkids hpass hv hpn r s0 hc
+        obtain ⟨st, hst⟩ : ∃ st, aget s0.lookup root = some st := by
+          rcases hR.known with h1 | ⟨d, hd⟩
+          · exact h1
+          · have := (hl.dg root d hd).2
+            rw [hcu] at this; exact absurd this (by simp)
+        rw [hst] at hs
+        simp only [Option.some.injEq] at hs
+        subst hs
+        have ht' : truthy ((g[root]?).bind (·.custom)) = false := hcu
+        simp only [ht', Bool.not_false, if_true]
+        have hl1 : aget (setL s0 s0.index root { st with name := some "" }).lookup root =
+            some { st with name := some "" } := aget_aset_same _ _ _
+        have e1 : ({ s0 with lookup := aset s0.lookup root { st with name := some "" } } : St) =
+            setL s0 s0.index root { st with name := some "" } := rfl
+        rw [e1, mark_eq g _ root none true _ hl1]
+        simp only [Bool.true_or, if_true]
+        rw [setL_setL]
+        have t1 : truthy (some "") = false := by decide
+        have t2 : truthy none = false := rfl
+        have hm : markName g { st with name := some "" } root none = some "" := by
+          simp only [markName, t1, t2, ht', Bool.false_eq_true, if_false]
+        rw [hm]
+        obtain ⟨st2, hst2⟩ : ∃ st2 : EState, st2 = { st with name := some "", extract := true } := ⟨_, rfl⟩
+        rw [← hst2]
+        have hnum : st2.number = 1 := by rw [hst2]; exact (hR.lk root st hst).1 rfl
+        have hname : st2.name = some "" := by rw [hst2]
+        have hR1 : RInv0 root (setL s0 (setL s0 s0.index root { st with name := some "" }).index root st2) :=
+          RInv0_setL s0 _ root st2 hR hR.idx ⟨fun _ => hnum, fun h => absurd rfl h⟩
+        have hR2 := RInv0_extract _ root hR1
+        obtain ⟨d, hd, hdn⟩ := extract_diagrams_same
+          (setL s0 (setL s0 s0.index root { st with name := some "" }).index root st2) root st2
+          (by simp only [setL]; exact aget_aset_same _ _ _)
+        rw [hname] at hdn
+        have := head_of_index_one _ root d hR2.dk hd ((hR2.dg root d hd).1 rfl)
+          (fun u e hu hne => (hR2.dg u e hu).2 hne) (by rw [hdn]; rfl) (by rw [hdn]; decide)
+          (fun u e hu hn => by
+            by_cases hur : u = root
+            · exact hur
+            · rw [extract_diagrams_ne _ _ _ hur] at hu
+              have hu' : aget s0.diagrams u = some e := hu
+              have h2 := hl.dg u e hu'
+              rw [hn, hdn] at h2
+              rw [← h2.1] at h2
+              exact absurd h2.2 (by decide))
+        rw [this, hdn]
+
+/-- non-vacuity: `root = '(' + E + ')'` with the named Forward `E <<= Word | '[' + E + ']'`-style
+    cycle below it would do; here the registered grammar `Opt(Empty()) + Word("01")` (unnamed And
+    root, no cycle): descendants {1, 2, 3} -/
+example : offCycleRootHyp gEmptyOpt opts0 0 [1, 2, 3] = true ∧
+    (toRailroad gEmptyOpt opts0 10 0).map names = some [some ""] :=
+  ⟨by decide +kernel, by decide +kernel⟩
+
+/-- the hypothesis is needed: for the two registered witnesses no such set exists / the root is
+    bypassed -/
+example : (∀ Dl, offCycleRootHyp gFwdRoot opts0 0 Dl = false) ∧
+    offCycleRootHyp gRootOnCycle opts0 0 [1, 2, 3, 4, 5] = false := by
+  refine ⟨fun Dl => ?_, by decide +kernel⟩
+  unfold offCycleRootHyp
+  have : isPass (gFwdRoot[0]) = true := by decide +kernel
+  simp [gFwdRoot, isPass] at this ⊢
+  simp [isPass, gFwdRoot, Node.isA, truthy]
 
 /-! ## no_empty_placeholder -/
 
